@@ -147,3 +147,64 @@ def sample_points(seg, n=8):
         p = seg.point(i / float(n))
         out.append(pt(p))
     return out
+
+
+# --------------------------------------------------------------------------
+# documents
+# --------------------------------------------------------------------------
+
+
+def color_val(c):
+    if c is None:
+        return None
+    return getattr(c, "value", None)
+
+
+def observe_doc(se, svg):
+    """Read-only observation of a parsed tree: one record per rendered element, in document order.
+
+    Shape: (n, class, geometry of abs(Path(copy)), fill, stroke, stroke_width, id)
+    Text / Title / Desc: (n, class, text, transform, fill, stroke)
+    """
+    out = []
+    if svg is None or not hasattr(svg, "elements"):
+        return out
+    for e in svg.elements():
+        vals = getattr(e, "values", None) or {}
+        n = vals.get("data-n")
+        cls = type(e).__name__
+        if isinstance(e, se.Shape):
+            try:
+                p = abs(se.Path(e))
+                geom = path_snap(list(p))
+            except Exception as ex:  # observation never raises; the oracle sees the marker
+                geom = [("error", [type(ex).__name__])]
+            sw = e.stroke_width
+            if isinstance(sw, se.Length):
+                sw = ("Len", sw.amount, sw.units)
+            out.append({"n": n, "cls": cls, "geom": geom, "fill": color_val(e.fill), "stroke": color_val(e.stroke), "sw": sw, "id": e.id})
+        elif isinstance(e, se.Text):
+            t = e.transform
+            out.append({"n": n, "cls": cls, "text": e.text, "xf": (t.a, t.b, t.c, t.d, t.e, t.f) if t is not None else None, "x": e.x, "y": e.y, "fill": color_val(e.fill), "stroke": color_val(e.stroke), "id": e.id})
+        elif isinstance(e, se.Title):
+            out.append({"n": n, "cls": cls, "text": e.title, "id": e.id})
+        elif isinstance(e, se.Desc):
+            out.append({"n": n, "cls": cls, "text": e.desc, "id": e.id})
+    return out
+
+
+def records_equal(a, b, rel=1e-9, geom_abs=None):
+    """Compare two observation records; returns (ok, message)."""
+    if a["cls"] != b["cls"]:
+        return False, "class %s != %s" % (a["cls"], b["cls"])
+    for k in sorted(set(a) | set(b)):
+        if k in ("geom", "cls"):
+            continue
+        va, vb = a.get(k), b.get(k)
+        if not close_val(va, vb, rel, 0.0):
+            return False, "%s %r != %r" % (k, va, vb)
+    if "geom" in a or "geom" in b:
+        ok, msg = snaps_equal(a.get("geom", []), b.get("geom", []), rel=rel, skip_move_start=True)
+        if not ok:
+            return False, "geometry: " + msg
+    return True, ""
